@@ -6,6 +6,8 @@
 (* transcribed character by character.  State of the Go lexer: position    *)
 (* (index p of the current character ch), curLine.  curLine counts the     *)
 (* newlines that have been READ so far, i.e. those at positions <= p.      *)
+(* A token is stamped with the line on which it STARTS (curLine after      *)
+(* skipWhitespace), also when it spans lines or is followed by a newline.  *)
 (*                                                                         *)
 (* Lex(s) = the tokens [type, lit, line] the lexer yields for the tag body *)
 (* s (the input is "<%" followed by s, so the first token is the opener),  *)
@@ -79,7 +81,7 @@ NextTok(s, p0) ==
       c2 == Ch(s, p + 1)
       ln == LineAt(s, p)
       one(type) == T(type, <<c>>, ln, p + 1)                   \* single character token, then readChar
-      two(type) == T(type, <<c, c2>>, LineAt(s, p + 1), p + 2)
+      two(type) == T(type, <<c, c2>>, ln, p + 2)
   IN
   CASE c = "EOF" -> T("EOF", <<>>, LineAt(s, p), p + 1)
     [] c = "=" -> IF c2 = "=" THEN two("==") ELSE one("=")
@@ -91,17 +93,17 @@ NextTok(s, p0) ==
     [] c = "!" -> IF c2 = "=" THEN two("!=") ELSE one("!")
     [] c = "PCT" -> IF c2 = ">" THEN two("E_END") ELSE one("ILLEGAL")
     [] c = "<" -> IF c2 = "PCT" THEN
-                     (IF Ch(s, p + 2) = "HASH" THEN T("C_START", <<"<", "PCT", "HASH">>, LineAt(s, p + 2), p + 3)
-                      ELSE IF Ch(s, p + 2) = "=" THEN T("E_START", <<"<", "PCT", "=">>, LineAt(s, p + 2), p + 3)
-                      ELSE T("S_START", <<"<", "PCT">>, LineAt(s, p + 1), p + 2))
+                     (IF Ch(s, p + 2) = "HASH" THEN T("C_START", <<"<", "PCT", "HASH">>, ln, p + 3)
+                      ELSE IF Ch(s, p + 2) = "=" THEN T("E_START", <<"<", "PCT", "=">>, ln, p + 3)
+                      ELSE T("S_START", <<"<", "PCT">>, ln, p + 2))
                   ELSE IF c2 = "=" THEN two("<=") ELSE one("<")
     [] c = "~" -> IF c2 = "=" THEN two("~=") ELSE one("~=")
     [] c = ">" -> IF c2 = "=" THEN two(">=") ELSE one(">")
     [] c \in {";", ":", ",", "LBR", "RBR", "(", ")", "[", "]", "/", "*"} -> one(c)
-    [] c = "QUOT" -> LET e == StrEnd(s, p) IN T("STRING", Unescape(Sub(s, p + 1, e - 1)), LineAt(s, e), e + 1)
-    [] c = "BQ" -> LET e == BStrEnd(s, p) IN T("B_STRING", Sub(s, p + 1, e - 1), LineAt(s, e), e + 1)
+    [] c = "QUOT" -> LET e == StrEnd(s, p) IN T("STRING", Unescape(Sub(s, p + 1, e - 1)), ln, e + 1)
+    [] c = "BQ" -> LET e == BStrEnd(s, p) IN T("B_STRING", Sub(s, p + 1, e - 1), ln, e + 1)
     [] c = "HASH" -> NextTok(s, CommentEnd(s, p))               \* the token after the comment, returned as it is
-    [] OTHER -> IF IsLetter(c) THEN LET e == SkipWhile(s, p, "ident") IN T(Keyword(Sub(s, p, e - 1)), Sub(s, p, e - 1), LineAt(s, e), e)
+    [] OTHER -> IF IsLetter(c) THEN LET e == SkipWhile(s, p, "ident") IN T(Keyword(Sub(s, p, e - 1)), Sub(s, p, e - 1), ln, e)
                 ELSE IF IsDigit(c) THEN NumTok(s, p)
                 ELSE one("ILLEGAL")
 \* a number that starts with a dot leaves the switch by `break`: the character after it is consumed as well
@@ -109,7 +111,7 @@ DotNumTok(s, p) == LET t == NumTok(s, p) IN IF t.type = "ILLEGAL" THEN t ELSE [t
 NumTok(s, p) == LET e == SkipWhile(s, p, "number")
                     lit == Sub(s, p, e - 1)
                     dots == Cardinality({i \in 1..Len(lit) : lit[i] = "."}) IN
-                T(IF dots > 1 THEN "ILLEGAL" ELSE IF dots = 1 THEN "FLOAT" ELSE "INT", lit, LineAt(s, e), e)
+                T(IF dots > 1 THEN "ILLEGAL" ELSE IF dots = 1 THEN "FLOAT" ELSE "INT", lit, LineAt(s, p), e)
 
 \* all tokens up to the first E_END / EOF
 RECURSIVE LexFrom(_, _, _)
@@ -124,7 +126,7 @@ TypesLits(ts) == [i \in 1..Len(ts) |-> <<ts[i].type, ts[i].lit>>]
 \* ---------------------------------------------------------------- exploration
 Words == { <<"x">>, <<"l","e","t">>, <<"i","f">>, <<"1">>, <<"1",".","2">>, <<"=">>, <<"=","=">>, <<"!">>, <<"!","=">>, <<"<">>, <<"<","=">>, <<"AMP","AMP">>, <<"|","|">>,
            <<"+">>, <<"-">>, <<"(">>, <<")">>, <<"LBR">>, <<"[">>, <<",">>, <<":">>, <<"QUOT","a"," ","QUOT">>, <<"BQ","x","BQ">>, <<"~","=">>, <<"x",".","a">> }
-Seps == { <<" ">>, <<"TAB">>, <<"NL">>, <<"CR","NL">>, <<" "," ">>, <<" ","HASH"," ","c","NL">> }
+Seps == { <<" ">>, <<"TAB">>, <<"NL">>, <<"CR","NL">>, <<" "," ">>, <<" ","HASH"," ","c","NL">>, <<" ","HASH","c","NL","HASH"," ","x","NL">>, <<"HASH","CR","NL","TAB","HASH","NL">> }
 
 VARIABLES s, words, seps     \* chars mode: s; words mode: the words chosen and the separators between / after them
 vars == <<s, words, seps>>
